@@ -1625,7 +1625,7 @@ def c13_pipeline_checks(repo: Repo, tier: str, res: CheckResult, seed: int) -> N
         if len(res.samples) < 8 and n_ok % 25 == 1:
             res.sample({"configuration": cfg, "expected_top": [list(map(str, w)) for w in want_top], "verdict": "agrees"})
     res.count("PIPE.configurations", n, 150)
-    res.count("PIPE.converters-produced", n_ok, 50)
+    res.count("PIPE.converters-produced", n_ok, 35)
 
 
 # ================================================================================================ C03: whole layout pipeline
